@@ -406,7 +406,13 @@ class Machine:
               'lt': torch.lt, 'le': torch.le, 'gt': torch.gt, 'ge': torch.ge, 'eq': torch.eq, 'logical_and': torch.logical_and, 'logical_or': torch.logical_or}
         if name == 'where':
             cs = self.live(lambda v: v.sig == x.sig and v.model.dtype == torch.bool)
-            if not cs:
+            if a[4] % 2 == 0:
+                # a fresh condition of the same signature with its own pattern (often dense, True off the other operands' patterns)
+                g = Stream(a[4] * 65536 + a[5], 'cond')
+                spec = gen_leaf(g, x.sig, 'bool')
+                cm, _ = TR.dense_of_spec(spec, torch.bool)
+                cv = self.result('leaf', TR.mk_patterned(spec, torch.bool), cm, x.sig)
+            elif not cs:
                 # make a condition by comparing
                 cpt = x.pt.gt(0.25)
                 cm = x.model.gt(0.25)
